@@ -14,7 +14,7 @@ from aquacrop import AquaCropModel, Soil, Crop, InitialWaterContent, IrrigationM
 
 COLS = ["MinTemp", "MaxTemp", "Precipitation", "ReferenceET", "Date"]
 NUM = COLS[:4]
-RANGES = {"MinTemp": (-30, 40), "MaxTemp": (-30, 60), "Precipitation": (0, 300), "ReferenceET": (0.1, 20)}
+RANGES = {"MinTemp": (-30, 40), "MaxTemp": (-30, 60), "Precipitation": (0, 300), "ReferenceET": (0.01, 20)}
 
 
 class _Stop(BaseException):
@@ -127,6 +127,7 @@ def _c14_configs(tier):
     out.append(("future|Wheat-tunis|method=0|cut_day=30", dict(kind="future", crop="Wheat", method=0, t=30)))
     for crop in (("Maize", "WheatGDD") if tier == "quick" else ("Maize", "WheatGDD", "Potato", "BarleyGDD")):
         out.append((f"outside-window|{crop}", dict(kind="outside", crop=crop, method=0)))
+    out.append(("outside-window|Maize|file-row-labels", dict(kind="outside", crop="Maize", method=0, keep_index=True)))
     out.append(("end-extension|Maize|2-seasons", dict(kind="extend", crop="Maize", method=1)))
     return out
 
@@ -198,10 +199,14 @@ def h_lookahead(ctx, cfg):
         upto = t
     else:
         pad = 60
-        w = w[(w.Date >= s_ts - pd.Timedelta(days=pad)) & (w.Date <= e_ts + pd.Timedelta(days=pad))].reset_index(drop=True)
+        w = w[(w.Date >= s_ts - pd.Timedelta(days=pad)) & (w.Date <= e_ts + pd.Timedelta(days=pad))]
+        keep = w.index if cfg.get("keep_index") else None
+        w = w.reset_index(drop=True)
         sym = {d for d in w.Date if d < s_ts or d > e_ts}
         upto = None
     df, cells = _proxy_table(ctx, w, sym)
+    if kind == "outside" and keep is not None:
+        df.index = keep                      # the row labels of the longer file the table was cut from
     names = [f"{c}@{d.date()}" for (c, d) in cells]
     ctx.reach("future-weather-symbolic" if kind == "future" else "outside-window-symbolic")
 
@@ -226,7 +231,7 @@ def h_lookahead(ctx, cfg):
     except (symx.Abort, TypeError, ValueError, ZeroDivisionError) as e:
         rows = []; suspected = True
         ctx.note("touched", f"{type(e).__name__}: {e}")
-    alts = [{n: (RANGES[n.split("@")[0]][0] + f * (RANGES[n.split("@")[0]][1] - RANGES[n.split("@")[0]][0])) for n in names} for f in (0.37, 0.9)]
+    alts = [{n: (RANGES[n.split("@")[0]][0] + f * (RANGES[n.split("@")[0]][1] - RANGES[n.split("@")[0]][0])) for n in names} for f in (0.0, 0.37, 0.9)]
     label = ("C14:outputs before the cut day do not depend on weather from the cut day on" if kind == "future"
              else "C14:weather records outside the simulation window have no effect")
     ctx.prove_independent(label, names, rows, lambda alt: _rows(run(alt), upto), since=m0, alts=alts, suspected=suspected)
